@@ -1,6 +1,7 @@
 // @id C16.ethetas
 // @engine B
 // @entry vfh_C16_ethetas
+// @shared_state_watch
 // @tier Q
 // @reach ethetas.done
 // @funcs Phreeqc::ETHETAS
